@@ -261,6 +261,7 @@ func TestVerifC15ServerTLS(t *testing.T) {
 	vOffloading(t, ops, impl, validator)
 	vOffloadingShared(t, ops, impl, validator)
 	vInbound(t, ops, impl)
+	vOutbound(t, ops, impl)
 	serverCfg, err := newServerTLSConfig(Config{serverCert: &serverCert, trustStore: pool, pkiValidator: validator})
 	if err != nil {
 		t.Fatal(err)
